@@ -1336,6 +1336,13 @@ impl HnswBackend {
             }
         }
 
+        // The manifest records the WAL sequence number covered by the snapshot it committed, and
+        // WAL compaction deletes segments relative to THAT number. If the state loaded above is
+        // older (fallback snapshot, or no snapshot at all), every entry in between must still be
+        // present in the retained segments; strict mode verifies this after replay.
+        let committed_snapshot_seq = manifest.latest_snapshot_wal_seq.unwrap_or(0);
+        let mut retained_gap_entries = 0u64;
+
         // Replay WAL segments (skip entries already captured in snapshot)
         for wal_name in &manifest.wal_segments {
             let wal_path = data_dir.join(wal_name);
@@ -1371,6 +1378,9 @@ impl HnswBackend {
             for entry in entries {
                 if entry.seq_no > max_wal_seq {
                     max_wal_seq = entry.seq_no;
+                }
+                if entry.seq_no > snapshot_last_wal_seq && entry.seq_no <= committed_snapshot_seq {
+                    retained_gap_entries += 1;
                 }
 
                 // Skip entries already captured in snapshot (sequence-based)
@@ -1434,6 +1444,21 @@ impl HnswBackend {
                 corrupted = reader.corrupted_entries(),
                 wal_segment = wal_name,
                 "wal replay complete"
+            );
+        }
+
+        if matches!(recovery_mode, RecoveryMode::Strict)
+            && committed_snapshot_seq > snapshot_last_wal_seq
+            && retained_gap_entries != committed_snapshot_seq - snapshot_last_wal_seq
+        {
+            anyhow::bail!(
+                "strict recovery mode: loaded state covers WAL sequence {} but the manifest committed \
+                 a snapshot at sequence {}; only {} of the {} entries in between are retained \
+                 (segments were compacted against the committed snapshot)",
+                snapshot_last_wal_seq,
+                committed_snapshot_seq,
+                retained_gap_entries,
+                committed_snapshot_seq - snapshot_last_wal_seq
             );
         }
 
